@@ -11,14 +11,18 @@
 (*          its releasing event (deadline passed, stream / multiplexer      *)
 (*          closed locally, peer closed, carrier failed, context cancelled) *)
 (*          was produced at time rel; the call returned lat ms after rel    *)
-(*          (returned = FALSE: not within the driver's watchdog).           *)
+(*          (returned = FALSE: not within the driver's watchdog).  A Write  *)
+(*          blocked for want of a write buffer (window token held) is then  *)
+(*          followed by one more Write that must go through.                *)
 (* Hol:     one stream's reader is stalled with its writer blocked on the   *)
 (*          exhausted window; the other streams must move want[j] bytes.    *)
 (* Backlog: the peer never accepts; the opens beyond its accept backlog.    *)
 (***************************************************************************)
 EXTENDS Integers, Sequences
 
-AttemptOK_Block(a, limit) == a.blocked /\ a.returned /\ a.lat <= limit
+\* follow (optional): after the blocked call returned, its deadline was cleared and the stream used again
+FollowOK(a, limit) == ("follow" \in DOMAIN a) => (a.follow.returned /\ a.follow.lat <= limit /\ a.follow.err = "")
+AttemptOK_Block(a, limit) == a.blocked /\ a.returned /\ a.lat <= limit /\ FollowOK(a, limit)
 C25_BlockReturns(r) ==
   (\E i \in DOMAIN r.attempts : r.attempts[i].blocked)
     => \E i \in DOMAIN r.attempts : AttemptOK_Block(r.attempts[i], r.limit)
